@@ -3,3 +3,6 @@ import GontainerModel.Model.Re
 import GontainerModel.Model.GoQuote
 import GontainerModel.Model.Basic
 import GontainerModel.Model.Imports
+import GontainerModel.Model.Regexes
+import GontainerModel.Model.Token
+import GontainerModel.Model.Input
